@@ -310,12 +310,16 @@ impl<B: FA> Trace for GenTrace<B> {
 // PROVER
 // ================================================================================================
 
-/// a fault injected into the auxiliary segment after it has been built: (aux column, row, non-zero delta)
+/// a fault injected into the auxiliary segment after it has been built
 #[derive(Clone, Copy, Debug)]
 pub struct AuxFault {
     pub col: usize,
     pub row: usize,
     pub delta: u32,
+    /// false: add `delta` to the single cell (col, row); true: transform the WHOLE column so that every
+    /// transition constraint stays satisfied and only the boundary assertion at row 0 is violated
+    /// (sum columns: add delta to every row; product columns: multiply every row by 1 + delta)
+    pub whole_column: bool,
 }
 
 pub struct GenProver<B: FA, H, R> {
@@ -424,7 +428,19 @@ where
         let lag: Option<Vec<E>> = aux_rand_elements.lagrange().map(|l| l.iter().copied().collect());
         let mut cols = build_aux(&self.desc, &main_trace.main, aux_rand_elements.rand_elements(), lag.as_deref());
         if let Some(f) = self.aux_fault {
-            cols[f.col][f.row] += E::from(f.delta.max(1));
+            let d = E::from(f.delta.max(1));
+            if f.whole_column {
+                let product = self.desc.aux.as_ref().map(|a| a.cols[f.col].0 != 0).unwrap_or(false);
+                for v in cols[f.col].iter_mut() {
+                    if product {
+                        *v *= E::ONE + d;
+                    } else {
+                        *v += d;
+                    }
+                }
+            } else {
+                cols[f.col][f.row] += d;
+            }
         }
         ColMatrix::new(cols)
     }
